@@ -23,7 +23,6 @@ RULE = ("per case: world of 1..5 duplicate families over 1..3 roots with hard-li
 ASSUMPTIONS = [
     "--match-links together with --symbolic-links is never generated (documented dangerous)",
     "all mtimes lie before the simulated report time; the dedupe run happens one simulated hour later",
-    "a symlink member moved by `move` may dangle at the target (only content conservation is required for it)",
 ]
 PRIORITIES = ["top", "bottom", "newest", "oldest", "most-recently-modified", "least-recently-modified",
               "most-recently-accessed", "least-recently-accessed", "most-recent-status-change",
@@ -263,7 +262,13 @@ def run_case(case):
                 if r in before and r not in after and before[r].type == "f":
                     t = after.get(b"T" + rd.wb() + b"/" + r)
                     if t is None or t.type != "f" or t.sha != before[r].sha:
-                        V("moved-bytes-at-target", "moved %r but its bytes are not at the mapped location under the target (%r)" % (b2s(r), t))
+                        V("moved-bytes-at-target", "moved %r but its bytes are not at the mapped location under the target (%r)" % (b2s(r), t), [r])
+                elif r in before and r not in after and before[r].type == "l" and orig.get(r) is not None:
+                    # a symbolic link listed as a member (-S): what it read before must be readable at the mapped location
+                    now = read_through(rd.world, b"T" + rd.wb() + b"/" + r)
+                    if now != orig[r]:
+                        V("moved-bytes-at-target", "moved the symbolic link %r; at the mapped location under the target it no longer reads its bytes (%s)" % (
+                            b2s(r), "dangling" if now is None else "%d other bytes" % len(now)), [r])
         changed = [p for p in before if before[p].type != "d" and (p not in after or not before[p].untouched(after[p]))]
         verdict = ",".join(sorted({v["clause"] for v in viol}))
         return {
@@ -329,4 +334,17 @@ def cross_root_link_classes(case):
     return key, bad_classes
 
 
-KNOWN_PREDICATES = {"c02-symlink-and-target-in-different-isolate-roots": _symlink_across_isolate_roots}
+def _moved_relative_symlink(case, violation):
+    """`group -S` lists symbolic links as members; `move` renames the link itself: a relative link no longer
+    resolves from its mapped location, and an absolute one dangles when its target is moved in the same run.
+    Accepted: op move, -S, clause moved-bytes-at-target, every path named by the violation is a symbolic
+    link of the world."""
+    if case["op"] != "move" or "-S" not in case["gflags"] or violation["clause"] != "moved-bytes-at-target":
+        return False
+    links = {e["p"] for e in case["world"]["entries"] if e["t"] == "l"}
+    paths = violation.get("paths", [])
+    return bool(paths) and all(p in links for p in paths)
+
+
+KNOWN_PREDICATES = {"c02-symlink-and-target-in-different-isolate-roots": _symlink_across_isolate_roots,
+                    "c02-moved-relative-symlink-dangles": _moved_relative_symlink}
